@@ -251,6 +251,11 @@ def run(ctx):
     _semantic_values_always_set(ctx)
     _folded_into_the_base_only_without_adjustment(ctx)
     _signature_keys_keep_reference_constness(ctx)
+    # R05.13 = R06.16 applied to CPPInstance::operator<, which orders the parameter instances inside a function type: a
+    # parameter WITH a default value must not tie with the same parameter without one, or CPPType::new_type() hands the second
+    # function the first one's parameter list and the database records the wrong `optional` flags (seed S11-C05)
+    from .C06 import nullable_members_are_ordered_when_only_one_is_null
+    nullable_members_are_ordered_when_only_one_is_null(ctx, rid="R05.13", names=("CPPInstance::operator<",), floor=1)
 
 
 def _contains(tree, node):
